@@ -47,6 +47,31 @@ func (ex *Exec) learnBounds(c *Term) {
 			}
 		}
 		return
+	case "or":
+		// x = K1 or x = K2 or ...  gives  min K <= x <= max K
+		var x *Term
+		lo, hi := int64(maxI64), int64(minI64)
+		for _, d := range c.args {
+			if d.op != "=" {
+				return
+			}
+			a, k := d.args[0], d.args[1]
+			if a.IsConst() {
+				a, k = k, a
+			}
+			if !k.IsConst() || k.sort.K != SBV || k.sort.W != 64 || (x != nil && x != a) {
+				return
+			}
+			x = a
+			v := signExt(k.u, 64)
+			lo, hi = min(lo, v), max(hi, v)
+		}
+		if x != nil {
+			b := ex.boundOf(x)
+			b.lo, b.hi = max(b.lo, lo), min(b.hi, hi)
+			ex.bounds[x.id] = b
+		}
+		return
 	case "bvslt", "bvsle", "bvsgt", "bvsge":
 		ex.learnCmp(c.op, c.args[0], c.args[1])
 	case "bvuge", "bvule":
